@@ -21,7 +21,7 @@ TECHNIQUE = "property-based testing: bounded-exhaustive + Hypothesis random inpu
 DESIGN_REF = "DESIGN.md section 5 (C03), 4.4, 4.7"
 RULE = (
     "Bounded-exhaustive layer (see exhaustive_layer) + Hypothesis cases: binary object tree (<=6 leaves; thorough <=8), species tree (<=4 leaves; thorough <=6), leaf assignment, <=5 families, each leaf a "
-    "non-empty family set, coherent costs; in the quick tier half of the random cases are deep chains (caterpillar of 6..8 leaves over <=3 species, 3..5 families, independent leaf contents) and one in 24 has 7..10 object / 3..8 species leaves - both decided by the memoised-recursion oracle under policy ANY.  Checked: usreconcile_extended_uspfs (ALL, ANY) cost == optimum over all mappings x all "
+    "non-empty family set, coherent costs; three quarters of the random cases are deep chains (caterpillar of 6..8 leaves over <=3 species, 3..5 families, independent leaf contents) and one in 48 has 7..10 object / 3..8 species leaves - both decided by the memoised-recursion oracle under policy ANY.  Checked: usreconcile_extended_uspfs (ALL, ANY) cost == optimum over all mappings x all "
     "labellings in which each family is gained once at the LCA of its carriers; usreconcile_base_uspfs == optimum with the LCA mapping; "
     "outputs valid (V-MAP, V-UNO), package cost == recount; the gain/required sets computed from the input are equal before and after "
     "solving.  Non-trivial: >=4 object leaves, some family gained strictly below the root and some optimal solution charges a "
@@ -32,7 +32,7 @@ ASSUMPTIONS = [
     "non-empty leaf syntenies; family order inside a leaf irrelevant",
     "reference oracles of harness/oracles.py",
 ]
-BUDGET = {"quick": {"random": 9000}, "thorough": {"random": 90000}}
+BUDGET = {"quick": {"random": 16000}, "thorough": {"random": 160000}}
 FUZZ = {"thorough": {"runs": 20000, "max_time": 900}}
 EXHAUSTIVE_RULE = {
     "quick": "every plane binary object shape <=3 leaves x species shape <=3 leaves x leaf assignment x every assignment of a non-empty family "
@@ -45,7 +45,7 @@ EXHAUSTIVE_COMPLETE = False  # the random layer is not exhaustive
 
 @st.composite
 def _with_large(draw, small):
-    pick = draw(st.sampled_from(["small"] * 11 + ["chain"] * 12 + ["large"]))
+    pick = draw(st.sampled_from(["small"] * 10 + ["chain"] * 37 + ["large"]))
     if pick == "large":
         # beyond plain enumeration: 7..10 object leaves, 3..8 species leaves, policy ANY, decided by the recursion oracle
         case = draw(gen.rec_case(max_obj=10, max_sp=8, min_obj=7, min_sp=3, costs="coherent", labelled=True, max_fam=5, allow_inconsistent=False))
